@@ -135,9 +135,9 @@ ScopedDiffer == /\ Encode(CfgN("default"), Bake(TA, ""), TAv) # Encode(CfgN("mk"
                 /\ Encode(CfgN("default"), Bake(TA, ""), TAv) # Encode(CfgN("mkkind"), Bake(TA, ""), TAv)
 AllIdx == 1..Len(Cat)
 QuickIdx == {1, 4, 5, 6, 9, 13, 14}
-ThoroughIdx == {1, 2, 4, 5, 6, 8, 9, 12, 13, 14, 15, 18}
+ThoroughIdx == {1, 4, 5, 6, 8, 9, 13, 14, 15, 18}
 Quick17 == {1, 2, 5, 7, 16, 19, 21}
-Thorough17 == {1, 2, 3, 4, 5, 7, 9, 13, 15, 16, 19, 21}
+Thorough17 == {1, 2, 3, 5, 7, 9, 13, 16, 19, 21}
 View == sysvars
 ASSUME PrintT(<<"CATALOGUE", ToJson(Cat)>>)
 \* a history is emitted when it cannot be extended (MaxSteps reached); prefixes are judged as part of it
